@@ -120,9 +120,13 @@ CONFIG_EABF = _EXT_CV + _ABF % ""
 CONFIG_EABF_NOCZ = _EXT_CV + _ABF % "  CZARestimator off\n"
 CONFIG_EABF_HARM = _EXT_CV + _ABF % "" + _HARM
 CONFIG_HIST = CONFIG_GRID[:CONFIG_GRID.index("metadynamics {")]
+# shared ABF (multiple-walker): needs a replica interface (vsim `replicas 0 2 -1 -1`: two replicas, no channel; sharedFreq
+# is larger than the run, so nothing is ever exchanged); its state has local_* grids and the OPTIONAL last_* section
+CONFIG_SABF = _EXT_CV + _ABF % "  shared on\n  sharedFreq 1000\n  CZARestimator off\n"
 CONFIGS = {"base": CONFIG, "grid": CONFIG_GRID, "extra": CONFIG_EXTRA, "eabf": CONFIG_EABF, "eabf_nocz": CONFIG_EABF_NOCZ,
-           "eabf_harm": CONFIG_EABF_HARM, "hist": CONFIG_HIST}
-PRELUDE = {"extra": ["temperature 300"], "eabf": ["temperature 300"], "eabf_nocz": ["temperature 300"], "eabf_harm": ["temperature 300"]}
+           "eabf_harm": CONFIG_EABF_HARM, "hist": CONFIG_HIST, "sabf": CONFIG_SABF}
+PRELUDE = {"extra": ["temperature 300"], "eabf": ["temperature 300"], "eabf_nocz": ["temperature 300"], "eabf_harm": ["temperature 300"],
+           "sabf": ["temperature 300", "replicas 0 2 -1 -1"]}
 NBINS = 4   # lowerBoundary 0, upperBoundary 4, width 1
 
 
@@ -142,11 +146,15 @@ def scenario(sess, name=NAME, distinct=False):
     return "\n".join(L) + "\n"
 
 
-def load_scenario(prefix, config="base", bias=False):
+def load_scenario(prefix, config="base", bias=False, how="file"):
     L = ["natoms 2"] + PRELUDE.get(config, []) + ["new", "config EOF"] + CONFIGS[config].strip("\n").split("\n") + ["EOF"]
     if bias:
         # colvarbias::read_state_prefix takes the file name itself when <prefix>.colvars.state is not there
         L += ["script cv bias m load %s" % prefix]
+    elif how == "buf":
+        L += ["loadbuf %s" % prefix]      # set_input_state_buffer() + setup_input()
+    elif how == "str":
+        L += ["loadstr %s" % prefix]      # input_stream_from_string("input state string") + setup_input()
     else:
         L += ["load %s" % prefix]
     return "\n".join(L) + "\n"
@@ -402,9 +410,9 @@ def complete_versions(files, refs_by_ver):
     return out
 
 
-def try_load_(vsim, d, fname, config="base", bias=False):
+def try_load_(vsim, d, fname, config="base", bias=False, how="file"):
     scn = os.path.join(d.path, "l.scn")
-    open(scn, "w").write(load_scenario(fname, config, bias))
+    open(scn, "w").write(load_scenario(fname, config, bias, how))
     rc, out, err = V.sh(["timeout", "-s", "KILL", "20", vsim, scn], cwd=d.path, timeout=60,
                         env={"ASAN_OPTIONS": "abort_on_error=1:detect_leaks=0", "UBSAN_OPTIONS": "halt_on_error=1:abort_on_error=1"})
     os.remove(scn)
@@ -817,6 +825,9 @@ def tx_line(text, config="base"):
         cfg = "cv:%d b:%d.%d.%d.0.%s" % (wid("d"), wid("abf"), wid("abf"), wid("a"), lay)
         if config == "eabf_harm":
             cfg += ",%d.%d.%d.0" % (wid("restraint"), wid("harmonic"), wid("h"))
+    elif config == "sabf":
+        lay = "+".join("k%d+w%d" % (wid(k), NBINS) for k in ("samples", "gradient", "local_samples", "local_gradient", "last_samples", "last_gradient"))
+        cfg = "cv:%d b:%d.%d.%d.0.%s" % (wid("d"), wid("abf"), wid("abf"), wid("a"), lay)
     elif config == "hist":
         cfg = "cv:%d b:%d.%d.%d.0.k%d+w%d" % (wid("d"), wid("histogram"), wid("histogram"), wid("hi"), wid("grid"), NBINS)
     elif config == "extra":
@@ -854,8 +865,53 @@ def tb_line(data, config="base"):
     return "TB n:1 b:%s d:%s" % (bs, data.hex())
 
 
+def other_entry_points(run, vsim, d, quick, cfgname, fmt, data, verdicts, r):
+    """the same damaged states through the other two entry points of setup_input(): a memory buffer for binary states
+    (set_input_state_buffer: engines with their own checkpoints) and a string for text states; the verdict must be the
+    one of the file (which the reader models are tied to); a proper prefix that one entry point accepts and the other
+    rejects is reported"""
+    how = "buf" if fmt == "binary" else "str"
+    pick = [v for i, v in enumerate(verdicts) if (i % (6 if quick else 4)) == 0]
+    p = os.path.join(d.path, "dmg.colvars.state")
+    n = 0
+    if fmt == "binary" and len(data) > 8:
+        # a complete buffer whose magic number is wrong (colvarmodule::read_state(memory_stream &) is the only check on this path)
+        dd = bytearray(data); dd[0] ^= 1
+        open(p, "wb").write(bytes(dd))
+        rc, ld = try_load_(vsim, d, "dmg.colvars.state", cfgname, False, how)
+        n += 1
+        run.count("%s-binary-buf-bad-magic" % cfgname, True)
+        run.dist("damage:binary-bad-magic-via-buffer")
+        if rc >= 128 or rc == 124 or rc < 0 or ld is None or ld[0] == "ok":
+            run.violation("load.bad-magic-number-via-buffer", "a state buffer whose magic number has one bit flipped (%s configuration) %s"
+                          % (cfgname, "is accepted without any error" if (ld and ld[0] == "ok") else "kills or hangs the process (rc=%d)" % rc),
+                          {"kind": "load", "format": fmt, "config": cfgname, "flip": [0, 0], "how": how})
+    for cut, verdict in pick:
+        if fmt == "binary" and cut < 4:
+            continue
+        open(p, "wb").write(data[:cut])
+        rc, ld = try_load_(vsim, d, "dmg.colvars.state", cfgname, False, how)
+        n += 1
+        run.count("%s-%s-%s-prefix-%d" % (cfgname, fmt, how, cut), True)
+        run.dist("damage:%s-prefix-via-%s" % (fmt, "buffer" if how == "buf" else "string"))
+        if rc >= 128 or rc == 124 or rc < 0 or ld is None:
+            run.violation("load.crash:%s-prefix-via-%s" % (fmt, how), "loading the first %d of %d bytes of a valid %s state (%s configuration) through %s kills or hangs the process (rc=%d)"
+                          % (cut, len(data), fmt, cfgname, "set_input_state_buffer" if how == "buf" else "the input state string", rc),
+                          {"kind": "load", "format": fmt, "config": cfgname, "cut": cut, "how": how})
+            continue
+        got = "ok" if ld[0] == "ok" else "err"
+        if got != verdict:
+            if got == "ok":
+                run.violation("load.%s-prefix-accepted-via-%s" % (fmt, how), "the first %d of %d bytes of a valid %s state (%s configuration) are rejected when read from a file "
+                              "but accepted without any error through %s" % (cut, len(data), fmt, cfgname, "set_input_state_buffer()" if how == "buf" else "the input state string"),
+                              {"kind": "load", "format": fmt, "config": cfgname, "cut": cut, "how": how})
+            else:
+                run.mismatch("entry-point-tie", {"config": cfgname, "format": fmt, "cut": cut, "how": how}, got, verdict)
+    return n
+
+
 def run_damage_grid(run, vsim, d, quick, model):
-    for cfgname in ("grid", "extra", "eabf", "eabf_nocz", "eabf_harm", "hist"):
+    for cfgname in ("grid", "extra", "eabf", "eabf_nocz", "eabf_harm", "hist", "sabf"):
         run_damage_config(run, vsim, d, quick, model, cfgname)
 
 
@@ -944,8 +1000,13 @@ def run_damage_config(run, vsim, d, quick, model, cfgname):
         if not (rc >= 128 or rc == 124 or rc < 0 or ld is None) and ld[0] == "ok":
             nacc += 1
             sig = "load.binary-prefix-accepted:at-hill-boundary" if cut in hill_starts else "load.binary-prefix-accepted:" + cfgname
+            if cfgname == "sabf" and binary[cut:cut + 20] == struct.pack("<Q", 12) + b"last_samples":
+                # the file ends exactly where the optional section (absent from older states) would start
+                sig = "load.binary-prefix-accepted:before-optional-last_samples-section"
             run.violation(sig, "a binary state (%s configuration) cut at byte %d of %d loads without any error" % (cfgname, cut, nb),
                           {"kind": "load", "format": "binary", "config": cfgname, "cut": cut})
+    nother = other_entry_points(run, vsim, d, quick, cfgname, "text", text, verdicts, r)
+    nother += other_entry_points(run, vsim, d, quick, cfgname, "binary", binary, bverdicts, r)
     nbdis = None
     if bverdicts and tb_line(b"", cfgname) is not None:
         blines = [tb_line(binary[:cut], cfgname) for cut, _ in bverdicts]
@@ -957,7 +1018,8 @@ def run_damage_config(run, vsim, d, quick, model, cfgname):
                 run.mismatch("binary-reader-tie", {"config": cfgname, "cut": cut, "of": nb}, verdict, mo.strip())
     run.cov["correspondence"]["damage_" + cfgname] = {"text_prefixes": len(verdicts), "text_reader_model_disagreements": ndis,
                                                       "binary_prefixes": len(boffs), "binary_prefix_accepted": nacc,
-                                                      "binary_reader_model_disagreements": nbdis}
+                                                      "binary_reader_model_disagreements": nbdis,
+                                                      "prefixes_through_buffer_or_string": nother}
     if os.path.exists(p):
         os.remove(p)
 
@@ -1074,6 +1136,32 @@ def run_damage(run, vsim, d, quick, model=None):
                 stats["crashes"] += 1
                 run.violation("load.crash:%s-bitflip" % nm, "loading a valid %s state with bit %d of byte %d flipped kills or hangs the process (rc=%d)" % (nm, bit, pos, rc),
                               {"kind": "load", "format": nm, "flip": [pos, bit], "scenario": scenario(sess, distinct=True)})
+    stats["prefixes_through_buffer_or_string"] = (other_entry_points(run, vsim, d, quick, "base", "text", text, text_verdicts, r) +
+                                                  other_entry_points(run, vsim, d, quick, "base", "binary", binary, binary_verdicts, r))
+    # crafted: each object of the text state without its name line (check_matching_state: "no identifiers")
+    tx = text.decode("latin1")
+    crafted = []
+    for m in re.finditer(r"\n\s*name \S+\n", tx):
+        crafted.append((m.start(), (tx[:m.start()] + "\n" + tx[m.end():]).encode("latin1")))
+    cl = []
+    for pos, dd in crafted:
+        rc, ld = load(dd)
+        run.count("text-unnamed-%d" % pos, True)
+        run.dist("damage:text-object-without-name")
+        if rc >= 128 or rc == 124 or rc < 0 or ld is None:
+            run.violation("load.crash:text-unnamed-object", "a text state whose object at byte %d has no name kills or hangs the process (rc=%d)" % (pos, rc),
+                          {"kind": "load", "format": "text", "unnamed": pos, "scenario": scenario(sess, distinct=True)})
+            continue
+        if ld[0] == "ok":
+            run.violation("load.text-unnamed-object-accepted", "a text state whose object at byte %d has no name line loads without any error" % pos,
+                          {"kind": "load", "format": "text", "unnamed": pos, "scenario": scenario(sess, distinct=True)})
+        cl.append((pos, dd, "ok" if ld[0] == "ok" else "err"))
+    if model is not None and cl:
+        rcm, mout, em = V.run_lines(model, [tx_line(dd.decode("latin1")) for pos, dd, v in cl], timeout=300)
+        for (pos, dd, v), mo in zip(cl, mout + ["<none>"] * (len(cl) - len(mout))):
+            if mo.strip() != v:
+                run.mismatch("text-reader-tie", {"unnamed_object_at": pos}, v, mo.strip())
+    stats["text_objects_without_name"] = len(cl)
     if os.path.exists(p):
         os.remove(p)
     run.cov["correspondence"]["damage"] = stats
@@ -1116,9 +1204,13 @@ def replay(rp, vsim, model):
         sess = {"first": 0, "pre": 6, "saves": ["text", "binary"]} if cfgname == "base" else {"first": 0, "pre": 6, "saves": ["text", "binary"], "config": cfgname}
         refs, chunking, rel = reference(vsim, d, sess)
         data = refs[0] if rp["format"] == "text" else refs[1]
+        if "unnamed" in rp:
+            tx = data.decode("latin1")
+            m = [m for m in re.finditer(r"\n\s*name \S+\n", tx) if m.start() == rp["unnamed"]][0]
+            data = (tx[:m.start()] + "\n" + tx[m.end():]).encode("latin1")
         if "cut" in rp:
             data = data[:rp["cut"]]
         if "flip" in rp:
             dd = bytearray(data); dd[rp["flip"][0]] ^= (1 << rp["flip"][1]); data = bytes(dd)
         open(os.path.join(d.path, "dmg.colvars.state"), "wb").write(data)
-        print("load:", try_load_(vsim, d, "dmg.colvars.state", cfgname), "file:", os.path.join(d.path, "dmg.colvars.state"))
+        print("load:", try_load_(vsim, d, "dmg.colvars.state", cfgname, False, rp.get("how", "file")), "file:", os.path.join(d.path, "dmg.colvars.state"))
